@@ -14,10 +14,11 @@ from pyvc.api import *
 from pyvc.api import PROTOCOLS
 from pyvc.values import cur, mk_bool, mk_int
 from contracts.proto_widget import *
+from contracts.C09_frame import mouse_press  # the (assumed, deterministic) predicate `is_mouse_press(event)`
 from contracts.C08_focus import PI, PILE, PINL, CSIZE, GRS_RESULT, PSIZE, item_at, n_items, pile_ri
 from contracts.C19_containers import (
     FIX, PH, WT, child_focus, entry_is, ph_unfold, pile_get_item_rows, pile_item_height, pile_item_kind, pile_item_rows_spec,
-    pile_item_size_is, pile_size_ok, pile_unfold, pile_wf, psum_of, reads_only,
+    pile_at, pile_item_size_is, pile_size_ok, pile_unfold, pile_wf, psum_of, reads_only, register_per_item,
 )
 
 from urwid.widget import pile as _pile
@@ -46,17 +47,19 @@ def _grs_loop(v):
     n = n_items(p)
     W_, H_, A_ = v.widths.seq, v.heights.seq, v.w_h_args.seq
     ph_unfold(p, i - 1, size, focus)
+    pile_at(i - 1)
     yield "one-entry-per-item-so-far", both(Q.seq_len(W_) == i, Q.seq_len(H_) == i, Q.seq_len(A_) == i)
     yield "widths", forall(0, i, lambda j: Q.seq_get(W_, j) == size[0])
     yield "heights", forall(0, i, lambda j: entry_is(Q.seq_get(H_, j), pile_item_height(p, j, size, focus)))
     yield "size-arguments", forall(0, i, lambda j: pile_item_size_is(Q.seq_get(A_, j), p, j, size, focus))
+    yield "no-negative-height-so-far", forall(0, i, lambda j: Q.seq_get(H_, j) >= 0)
     yield "summed", psum_of(H_, i) == PH(focus, i)
     if len(size) == 2:
         IR = pile_item_rows_spec(p, size, focus)
         ir = v.item_rows
         yield "item-rows-computed-once", either(V.opt_isnone(ir), True if V.opt_isnone(ir) is True else both(
             Q.seq_len(val(ir)) == n, forall(0, n, lambda j: Q.seq_get(val(ir), j) == Q.seq_get(IR, j))))
-        yield "same-rows-as-get_item_rows-while-pack-children-are-flow", implies(pack_children_are_flow(p, 0, i), psum_of(H_, i) == IR.psum(i))
+        yield "same-rows-as-get_item_rows", psum_of(H_, i) == IR.psum(i)
 
 
 @contract(PI + "Pile.get_rows_sizes", property=("C09", "C01", "C19"), inline=PINL, deterministic=True, replayable=False)
@@ -88,8 +91,23 @@ class pile_grs:
         if len(size) == 2:
             pile_unfold(old, n - 1, size[0], focus)
             fixed = FIX(n)
-            yield "box-rows-filled-exactly-when-pack-children-are-flow-widgets", implies(pack_children_are_flow(old, 0, n), psum_of(H_, n) == fixed + imax(size[1] - fixed, 0))
+            yield "box-rows-filled-exactly", psum_of(H_, n) == fixed + imax(size[1] - fixed, 0)
         yield "frame", both(s._contents._focus == old._contents._focus, n_items(s) == n)
+
+    def ensures_callee(old, s, a, result):
+        """At call sites: the quantifier-free clauses; the per-child clauses are instantiated on demand (`pile_at`)."""
+        n = n_items(old)
+        W_, H_, A_ = result
+        size, focus = a.size, a.focus
+        yield "one-entry-per-child", both(Q.seq_len(W_) == n, Q.seq_len(H_) == n, Q.seq_len(A_) == n)
+        yield "total-height", psum_of(H_, n) == PH(focus, n)
+        if len(size) == 2:
+            fixed = FIX(n)
+            yield "box-rows-filled-exactly", psum_of(H_, n) == fixed + imax(size[1] - fixed, 0)
+        yield "frame", both(s._contents._focus == old._contents._focus, n_items(s) == n)
+        register_per_item(n, lambda j: both(
+            Q.seq_get(W_, j) == size[0], entry_is(Q.seq_get(H_, j), pile_item_height(old, j, size, focus)),
+            pile_item_size_is(Q.seq_get(A_, j), old, j, size, focus), Q.seq_get(H_, j) >= 0))
 
     loops = {
         0: Loop(invariant=_grs_loop, shapes={"widths": ListOf(Int), "heights": ListOf(Int), "w_h_args": ListOf(CSIZE), "item_rows": Opt(ListOf(Int))}),
@@ -156,19 +174,7 @@ def _hit_loop(v):
     yield "children-passed-end-at-or-above-the-row", v.wrow <= v.row
 
 
-def key_contains(ev, word):
-    return PROTOCOLS["Key"].contains(cur(), ev, word)
-
-
-def _key_contains(self, st, obj, x):
-    """`word in event` for an opaque event name: an uninterpreted predicate of (event, word)."""
-    f = z3.Function("Key.contains", obj.e.sort(), z3.IntSort(), z3.BoolSort())
-    return mk_bool(f(obj.e, z3.IntVal(V.atom_code(x))))
-
-
-type(PROTOCOLS["Key"]).contains = _key_contains
-
-EINL = PINL + ("urwid/widget/widget.py:Widget.selectable", "urwid/util.py:is_mouse_press")
+EINL = PINL + ("urwid/widget/widget.py:Widget.selectable",)
 
 
 def opt_shift(res, base, dx, dy):
@@ -274,7 +280,7 @@ class pile_mouse:
         j = arb_child()  # arbitrary: the clauses below hold for every child index j
         at_row = g.child_at(j, a.row)
         w = item_at(old, j)[0]
-        press = both(key_contains(a.event, "press"), a.button == 1, W.call_quiet(st, w, "selectable", {}))
+        press = both(mouse_press(a.event), a.button == 1, W.call_quiet(st, w, "selectable", {}))
         yield "button-1-press-on-a-selectable-child-moves-the-focus-there", implies(both(at_row, press), s._contents._focus == j)
         yield "nothing-else-moves-the-focus", implies(both(at_row, neg(press)), s._contents._focus == f0)
         has = W.hasattr(None, st, w, "mouse_event")
